@@ -5,9 +5,10 @@
 (* backends — all rendering entry points, the Write/PushParam event stream *)
 (* of the real renderer, inject_parameters.                                *)
 (***************************************************************************)
-EXTENDS StmtLaw, WriterLaw, IOUtils, TLCExt, FiniteSets
+EXTENDS GrammarLaw, WriterLaw, IOUtils, TLCExt, FiniteSets
 Rec == ndJsonDeserialize(IOEnv.TRACE)
 Backends == {"mysql", "pg", "sqlite"}
+WithGrammar == "GRAMMAR" \in DOMAIN IOEnv /\ IOEnv.GRAMMAR = "1"
 VARIABLE l
 TInit == l = 1
 IsPanic(o) == "panic" \in DOMAIN o
@@ -30,7 +31,9 @@ KeysFor(B, r) ==
       lits == [i \in DOMAIN o.lits |-> Lex(B, o.lits[i])]
       same == SameStatementReason(Ti, Tp, lits)
       literalMarks == Len(SelectSeq(Tp, LAMBDA t : t.k = "ph")) # Len(o.values)
-  IN {"C01/" \o B \o "/" \o x : x \in PlaceholderReasons(B, Tp, Len(o.values))}
+      g == IF WithGrammar THEN GrammarReason(B, s, o.inline) ELSE ""
+  IN (IF g \in {"", "?unsupported"} THEN {} ELSE {(IF B = "sqlite" THEN "C07/" ELSE "C08/") \o B \o "/" \o g})
+     \cup {"C01/" \o B \o "/" \o x : x \in PlaceholderReasons(B, Tp, Len(o.values))}
      \cup (IF o.values = want THEN {} ELSE {"C01/" \o B \o "/bound_values_differ_from_given_order"})
      \cup {"C01/" \o B \o "/" \o x : x \in EventReasons(o.events, 1, 0, B = "pg")}
      \cup (IF EventsText(o.events, 1) = o.sql /\ EventsValues(o.events) = o.values /\ o.events_sql = o.sql /\ o.events_values = o.values
